@@ -44,9 +44,11 @@ LeafTable ==
                  <<JNum(4), JNum(8), JNum(16), JNum(20), JNum(10), SA, JBool(TRUE), JNull>>, JNum(12)),
     str    |-> L(("type" :> <<"string">>) @@ ("minLength" :> 2) @@ ("pattern" :> "p_a"),
                  <<SA, SAB, SBA, JStr(<<"a", "b", "b">>), JNum(12), JNull>>, SAB),
-    \* (no multipleOf: a named float type with multipleOf does not compile -- finding F-C01-named-float-multipleof, C01's business)
+    \* a named float type with multipleOf (did not compile before fix 1069fc9): leaf nummult below
     num    |-> L(("type" :> <<"number">>) @@ ("exclusiveMaximum" :> [k |-> "n", h |-> JNum(12)]) @@ ("minimum" :> JNum(-6)),
                  <<JNum(12), JNum(10), JNum(11), JNum(-6), JNum(-7), SA>>, JNum(10)),
+    nummult |-> L(("type" :> <<"number">>) @@ ("multipleOf" :> 2) @@ ("minimum" :> JNum(2)),
+                 <<JNum(2), JNum(3), JNum(4), JNum(0), JNum(10), JNum(9), SA>>, JNum(4)),
     bool   |-> L([type |-> <<"boolean">>], <<JBool(TRUE), JBool(FALSE), JNum(0), SA>>, JBool(TRUE)),
     enums  |-> L([type |-> <<"string">>, enum |-> <<SA, SAB>>], <<SA, SAB, SB, JNum(4)>>, SA),
     enumu  |-> L([enum |-> <<SA, JNum(4)>>], <<SA, JNum(4), JNum(8), SB, JBool(TRUE)>>, SA),
